@@ -91,6 +91,7 @@ MUTATIONS = [
  ('m69', 'C08', 'src/transform/adapt/diagonal.rs', r's/        if self\.current_count\(\) < 3 \{\n            return false;/        if self.current_count() < 3 {\n            return true;/', 'diagonal adapt reports a change with fewer than three samples (mutation campaign)'),
  ('m70', 'C06', 'src/external_adapt_strategy.rs', r's/\(\(num_tune as f64\) \* \(1f64 - options\.step_size_window\)\)\.floor\(\) as u64/((num_tune as f64) * (1f64 + options.step_size_window)).floor() as u64/', 'flow adaptation: final window placed after the end of warm-up (mutation campaign)'),
  ('m71', 'C09', 'src/transform/adapt/low_rank.rs', r's/            background_split: 0,/            background_split: 1,/', 'low-rank strategy starts with a background split of 1: the first switch drops the start point only by accident of the count (mutation campaign)'),
+ ('m72', 'C03', 'src/nuts.rs', r's/        self\.depth \+= 1;/        self.depth += 0;/', 'merge_into never increases the depth: the doubling loop does not terminate (mutation campaign)'),
  ('e01', 'C18', 'src/mclmc.rs', r's/&& self.draw_count == self.switch_draw/&& self.draw_count >= self.switch_draw/', 'EQUIVALENT on reachable states: must not be flagged'),
  ('e02', 'C08', 'src/math/cpu_math.rs', r's/\*mean \+= diff \* diff_scale;\n                \*var \+= diff \* diff;/*mean += diff * diff_scale;\n                *var += diff * (x - *mean);/', 'EQUIVALENT for the property (ratio of variances unchanged): must not be flagged'),
 ]
